@@ -14,6 +14,7 @@ import Mfi.Model.Interest
 import Mfi.Lemmas.WorldL
 import Mfi.Lemmas.WorldSolvH
 import Mfi.Lemmas.WorldRecvL
+import Mfi.Lemmas.WorldTxSolv
 namespace Mfi.Props.C12
 open Mfi Mfi.Admin Mfi.Gen
 
@@ -368,6 +369,116 @@ theorem world_history_changes_no_configuration (ops : List World.WOp) : ∀ (w :
       · left; rw [o2, a11]
       · right; rw [o2, a11]
     · right; exact o2
+
+/-- the weaker frame that composes over histories: key, group, rate configuration, risk parameters and oracle as they were; the
+    operational state as it was or KilledByBankruptcy -/
+def CfgKept (x x' : WBank) : Prop :=
+  x'.v.key = x.v.key ∧ x'.v.group = x.v.group ∧ x'.v.ir = x.v.ir ∧ x'.risk = x.risk ∧ x'.feed = x.feed ∧
+  (x'.v.opState = x.v.opState ∨ x'.v.opState = 3)
+
+theorem cfgKept_of_same {x x' : WBank} (h : SameCfg x x') : CfgKept x x' := by
+  obtain ⟨a1, a2, _, a4, _, _, _, _, a9, a10, a11⟩ := h
+  exact ⟨a1, a2, a4, a9, a10, a11⟩
+
+theorem cfgKept_trans {x y z : WBank} (h1 : CfgKept x y) (h2 : CfgKept y z) : CfgKept x z := by
+  obtain ⟨a1, a2, a3, a4, a5, a6⟩ := h1
+  obtain ⟨b1, b2, b3, b4, b5, b6⟩ := h2
+  refine ⟨by rw [b1, a1], by rw [b2, a2], by rw [b3, a3], by rw [b4, a4], by rw [b5, a5], ?_⟩
+  rcases b6 with b6 | b6
+  · rcases a6 with a6 | a6
+    · left; rw [b6, a6]
+    · right; rw [b6, a6]
+  · right; exact b6
+
+theorem stepIn_cfg {tx : List TOp} {i : Nat} {t : TOp} {w w' : World.WState} (h : w.stepIn tx i t = some w')
+    (j : Nat) (x : WBank) (hx : w.banks[j]? = some x) : ∃ x', w'.banks[j]? = some x' ∧ CfgKept x x' := by
+  cases t with
+  | ix op =>
+    simp only [World.WState.stepIn] at h
+    rw [step?_some h]
+    obtain ⟨x', hx', hc⟩ := step_bank_frame w op j x hx
+    exact ⟨x', hx', cfgKept_of_same hc⟩
+  | startFlash ai signer endIdx =>
+    simp only [World.WState.stepIn] at h
+    split at h
+    · split at h
+      · injection h with h; subst h; exact ⟨x, hx, cfgKept_of_same (sameCfg_refl x)⟩
+      · cases h
+    · cases h
+  | endFlash ai signer =>
+    simp only [World.WState.stepIn] at h
+    split at h
+    · split at h
+      · injection h with h; subst h; exact ⟨x, hx, cfgKept_of_same (sameCfg_refl x)⟩
+      · cases h
+    · cases h
+  | startLiq ai receiver recordOk =>
+    simp only [World.WState.stepIn] at h
+    split at h
+    · split at h
+      · injection h with h; subst h; exact ⟨x, hx, cfgKept_of_same (sameCfg_refl x)⟩
+      · cases h
+    · cases h
+  | endLiq ai signer recordOk walletOk feeMax =>
+    simp only [World.WState.stepIn] at h
+    split at h
+    · split at h
+      · injection h with h; subst h; exact ⟨x, hx, cfgKept_of_same (sameCfg_refl x)⟩
+      · cases h
+    · cases h
+  | startDelev ai signer recordOk =>
+    simp only [World.WState.stepIn] at h
+    split at h
+    · split at h
+      · injection h with h; subst h; exact ⟨x, hx, cfgKept_of_same (sameCfg_refl x)⟩
+      · cases h
+    · cases h
+  | endDelev ai signer recordOk =>
+    simp only [World.WState.stepIn] at h
+    split at h
+    · split at h
+      · injection h with h; subst h; exact ⟨x, hx, cfgKept_of_same (sameCfg_refl x)⟩
+      · cases h
+    · cases h
+
+theorem runFrom_cfg (tx : List TOp) : ∀ (rest : List TOp) (i : Nat) (w w' : World.WState), World.WState.runFrom tx i rest w = some w' →
+    ∀ (j : Nat) (x : WBank), w.banks[j]? = some x → ∃ x', w'.banks[j]? = some x' ∧ CfgKept x x' := by
+  intro rest
+  induction rest with
+  | nil =>
+    intro i w w' h j x hx
+    simp only [World.WState.runFrom] at h; injection h with h; subst h
+    exact ⟨x, hx, cfgKept_of_same (sameCfg_refl x)⟩
+  | cons op rest ih =>
+    intro i w w' h j x hx
+    simp only [World.WState.runFrom] at h
+    split at h
+    · rename_i w1 h1
+      obtain ⟨x1, hx1, c1⟩ := stepIn_cfg h1 j x hx
+      obtain ⟨x2, hx2, c2⟩ := ih (i + 1) w1 w' h j x1 hx1
+      exact ⟨x2, hx2, cfgKept_trans c1 c2⟩
+    · cases h
+
+/-- **world_transactions_change_no_configuration**: over every sequence of transactions of the world machine — user instructions,
+    liquidations, settlements, cranks, flash-loan brackets, liquidation and forced-deleverage brackets, committed or rolled back,
+    by anybody — every bank keeps its key, group, interest-rate configuration, risk weights and limits and its oracle; its
+    operational state stays or becomes KilledByBankruptcy. What the risk admin can reach through a deleverage is positions (through
+    withdraw / repay, metered) and the account's markers — never a bank's configuration. -/
+theorem world_transactions_change_no_configuration : ∀ (txs : List (List TOp)) (w : World.WState) (j : Nat) (x : WBank),
+    w.banks[j]? = some x → ∃ x', (w.runTxs txs).banks[j]? = some x' ∧ CfgKept x x' := by
+  intro txs
+  induction txs with
+  | nil => intro w j x hx; exact ⟨x, hx, cfgKept_of_same (sameCfg_refl x)⟩
+  | cons tx rest ih =>
+    intro w j x hx
+    simp only [World.WState.runTxs]
+    cases hr : w.runTx tx with
+    | none => simpa using ih w j x hx
+    | some w1 =>
+      obtain ⟨x1, hx1, c1⟩ := runFrom_cfg tx tx 0 w w1 hr j x hx
+      obtain ⟨x2, hx2, c2⟩ := ih w1 j x1 hx1
+      simp only [Option.getD_some]
+      exact ⟨x2, hx2, cfgKept_trans c1 c2⟩
 
 /-! #### what the risk admin's forced deleverage reaches (transactions of the world machine, `Mfi/Model/WorldTx.lean`) -/
 
